@@ -27,7 +27,7 @@ def _conds(tier):
         c(3, "steps", "00", "-1,-1")
         c(1, "start", "01", "-1,0", loglevel=0)       # set_error_strategy(strategy, log_level)
         c(2, "start", "00", "-1,-1", loglevel=10)
-        c(3, "start", "01", "-1,0", loglevel=50)
+        c(3, "start", "01", "-1,0", loglevel=1)
         c(3, "start", "001", "-1,-1,0", fixfails="010")
         c(3, "start", "001", "-1,-1,0", fixfails="101")
         c(1, "start", "001", "-1,-1,0", fixfails="110")
@@ -36,7 +36,7 @@ def _conds(tier):
             for rm in ("start", "steps", "bounded"):
                 for kinds, parents in (("01", "-1,0"), ("00", "-1,-1"), ("02", "-1,0"), ("10", "-1,-1")):
                     c(st, rm, kinds, parents, priosym=1, timeout=2400)
-                    for lv in (0, 10, 50):
+                    for lv in (0, 1, 10):
                         c(st, rm, kinds, parents, timeout=2400, loglevel=lv)
                 for kinds, parents in (("001", "-1,-1,0"), ("011", "-1,0,1"), ("000", "-1,-1,-1"), ("012", "-1,0,0")):
                     for mask in itertools.product("01", repeat=3):
